@@ -161,6 +161,30 @@ if bad is None:
     gb = sorted(round(float(v), 12) for v in bx[bt != 0])
     if gb != [-0.02]:
         bad = dict(case='mirror, two arrays', observed_images_of_b=gb, expected=[-0.02])
+if bad is None:
+    # two arrays, periodic in x and y, three updates: the number of ghosts of
+    # each array must stay the same (buffers emptied every round)
+    rng = np.random.RandomState(5)
+    arrs = [get_particle_array(name='p%d' % k, x=rng.rand(12), y=rng.rand(12), h=0.05) for k in range(3)]
+    dm = DomainManager(xmin=0, xmax=1, ymin=0, ymax=1, periodic_in_x=True, periodic_in_y=True, n_layers=2)
+    nn = LinkedListNNPS(dim=2, particles=arrs, domain=dm)
+    def nghost(p): return int((p.get('tag', only_real_particles=False) != 0).sum())
+    first = [nghost(p) for p in arrs]
+    for rnd in range(3):
+        nn.update_domain(); nn.update()
+        now = [nghost(p) for p in arrs]
+        if now != first:
+            bad = dict(case='periodic, three arrays, update %d' % (rnd + 2), ghosts_per_array=now, after_first_update=first); break
+if bad is None:
+    # periodic in x and mirror in y: the mirror scan covers the periodic
+    # ghosts, so a particle in the corner gets 3 images
+    pa = get_particle_array(name='a', x=[0.02], y=[0.03], h=0.05, u=[1.0], v=[2.0])
+    dm = DomainManager(xmin=0, xmax=1, ymin=0, ymax=1, periodic_in_x=True, mirror_in_y=True, n_layers=2)
+    nn = LinkedListNNPS(dim=2, particles=[pa], domain=dm)
+    pts = sorted((round(float(a_), 9), round(float(b_), 9)) for a_, b_ in zip(pa.get('x', only_real_particles=False), pa.get('y', only_real_particles=False)))
+    want = sorted([(0.02, 0.03), (1.02, 0.03), (0.02, -0.03), (1.02, -0.03)])
+    if pts != want:
+        bad = dict(case='periodic x + mirror y corner', observed=pts, expected=want)
 print(json.dumps(dict(bad=bad)))
 '''
 
@@ -419,8 +443,15 @@ class ArrStub(object):
         if name == 'append_parray':
             return Native(lambda e, s_, a, k, n: s_.trace.append(
                 ('append_parray', me.name, a[0].name)))
-        if name in ('resize', 'ensure_properties', 'empty_clone',
-                    'set_num_real_particles'):
+        if name == 'resize':
+            return Native(lambda e, s_, a, k, n: s_.trace.append(
+                ('resize', me.name, a[0] if a else None)))
+        if name == 'empty_clone':
+            def f(e, s_, a, k, n):
+                s_.trace.append(('empty_clone', me.name))
+                return ArrStub('ghost' + me.name[2:])
+            return Native(f)
+        if name in ('ensure_properties', 'set_num_real_particles'):
             return Native(lambda e, s_, a, k, n: s_.trace.append(
                 (name, me.name)))
         if name == 'tag':
@@ -502,6 +533,13 @@ def scan_checks(spec_by_loop, m, W, mode, A, L):
 
 
 def task_compose(ctx, repo, m, mode):
+    _compose(ctx, repo, m, mode, True)
+    if mode == 'periodic':
+        # the very first update: no ghost buffers yet
+        _compose(ctx, repo, m, mode, False)
+
+
+def _compose(ctx, repo, m, mode, have_ghosts):
     cls = 'CPUDomainManager'
     mname = '_create_ghosts_' + mode
     fn = m.methods(cls)[mname]
@@ -532,9 +570,11 @@ def task_compose(ctx, repo, m, mode):
         flags[('periodic_in_' if mode == 'periodic' else 'mirror_in_') +
               a] = True
     obj = dm_self(m, cls, pa_wrappers=paws, narrays=narrays,
-                  copy_props=[None, None], ghosts=list(ghosts), **flags)
+                  copy_props=[None, None],
+                  ghosts=list(ghosts) if have_ghosts else [], **flags)
     A = obj.attrs
     L = A['n_layers'] * A['cell_size']
+    tagp = mode if have_ghosts else mode + '.first_update'
     # loop specs for every scan loop
     ks = loops_over(fn, 'np')
     specs = {}
@@ -642,17 +682,61 @@ def task_compose(ctx, repo, m, mode):
         for o_ in sub:
             o_.name = 'exec%d.%s' % (li, o_.name)
         obs += sub
+        # the scan covers EVERY particle of the column it reads (ghosts
+        # appended by an earlier pass included)
+        ent = log['entry']
+        xc = ent.env.get('x')
+        xlen = xc.attrs['length'] if isinstance(xc, SymObject) else \
+            getattr(xc, 'length', None)
+        lp = [x_ for x_ in _all_loops(fn)][k]
+        bound = None
+        try:
+            bound = ex.eval(lp.iter.args[-1] if len(lp.iter.args) < 3 else
+                            lp.iter.args[1], ent)
+        except Exception:
+            pass
+        okb = xlen is not None and bound is not None and \
+            len(lp.iter.args) == 1
+        obs.append(Obligation('exec%d.scan.%d.covers_whole_column' % (li, k),
+                              ent.pc, S.to_z3(S.cmp('==', bound, xlen))
+                              if okb else z3.BoolVal(False), W))
     # composition trace per outcome
     for i_, o in enumerate(outs):
         ok, why = check_composition(o.state.trace, var, mode, narrays, ks)
         obs.append(Obligation('%s.compose.%d' % (mode, i_), o.pc,
                               z3.BoolVal(bool(ok)), W, extra=dict(why=why)))
+        if mode == 'periodic':
+            # every ghost buffer is empty before images are collected in it:
+            # freshly cloned on the first update, resized to 0 afterwards
+            tr = o.state.trace
+            why2 = ''
+            for ai in range(narrays):
+                buf = 'ghost%d' % ai
+                first = [j for j, t in enumerate(tr) if t[0] == 'extract'
+                         and t[4] == buf]
+                prep = [j for j, t in enumerate(tr) if (
+                    t[0] == 'resize' and t[1] == buf and str(t[2]) == '0')
+                    or (t[0] == 'empty_clone' and t[1] == 'pa%d' % ai)]
+                if not first or not prep or min(prep) > min(first) or \
+                        len(prep) != 1:
+                    why2 = 'buffer of array %d not emptied exactly once ' \
+                        'before its images are collected' % ai
+            obs.append(Obligation('%s.buffers_start_empty.%d' % (mode, i_),
+                                  o.pc, z3.BoolVal(not why2), W,
+                                  extra=dict(why=why2)))
     for o_ in obs:
         o_.extra = dict(o_.extra or {}, backends=['z3'])
-    ctx.prove('%s.ghost_construction' % mode, obs, replay=replay_built,
+    ctx.prove('%s.ghost_construction' % tagp, obs, replay=replay_built,
               sample=True, use_nf=False,
               info='; '.join(sorted(set(o_.extra.get('why', '') for o_ in obs
                                         if o_.extra.get('why')))[:3]))
+
+
+def _all_loops(fn):
+    import ast as _ast
+    return sorted([x for x in _ast.walk(fn) if isinstance(x, (_ast.For,
+                                                              _ast.While))],
+                  key=lambda x: (x.lineno, x.col_offset))
 
 
 def check_composition(trace, var, mode, narrays, ks):
